@@ -6,6 +6,8 @@ use moyo::base::{AngleTolerance, Cell, MoyoError};
 use moyo::data::Setting;
 use moyo::MoyoDataset;
 use nalgebra::{Matrix3, Vector3};
+#[allow(unused_imports)]
+use crate::gen::{hnfs_of_index, random_rotation, random_unimodular};
 
 pub fn mat_row_major(m: &Matrix3<f64>) -> String {
     let mut v = vec![];
@@ -86,7 +88,7 @@ pub fn dataset_segments(r: &Result<Result<MoyoDataset, MoyoError>, String>) -> S
 
 pub fn truth_segments(t: &Truth) -> String {
     format!(
-        "thall {} ; tP {} ; tshift {} ; tscale {} ; torbit {} ; twyck {} ; tnoisy {} ; tsteps {}",
+        "thall {} ; tP {} ; tshift {} ; tscale {} ; torbit {} ; twyck {} ; tnoisy {} ; tmirror {} ; torigin {} ; tsteps {}",
         t.hall,
         imat_row_major(&t.p),
         vec3s(&t.shift),
@@ -94,6 +96,8 @@ pub fn truth_segments(t: &Truth) -> String {
         ints(t.orbit_id.iter().map(|&x| x as i64)),
         ints(t.wyckoff_row.iter().cloned()),
         if t.noisy { 1 } else { 0 },
+        if t.mirrored { 1 } else { 0 },
+        ints(t.origin_atom.iter().map(|&x| x as i64)),
         if t.steps.is_empty() { "none".to_string() } else { t.steps.join(",") }
     )
 }
@@ -249,6 +253,51 @@ pub fn gen_cases(mode: &str, tier: &str, seed: u64, out: &str) {
                         emit(&mut w, format!("h{}-req-bad{}", h, bad), &base, sp, AngleTolerance::Default, Setting::HallNumber(bad));
                     }
                 }
+            }
+        }
+        // metamorphic pairs (C04): a base description and a random word of re-descriptions of the same crystal
+        "meta" => {
+            let n = if thorough { 530 * 3 } else { 170 };
+            for k in 0..n {
+                let h = if thorough { (k % 530) as i32 + 1 } else { rng.range(1, 530) as i32 };
+                let base = crystal(h, &mut rng, 2);
+                let sp = *rng.pick(&[1e-5, 1e-4, 1e-3]);
+                let at = if rng.chance(0.7) { AngleTolerance::Default } else { AngleTolerance::Radian(rng.uniform(2e-3, 2e-2)) };
+                let st = *rng.pick(&settings);
+                emit(&mut w, format!("h{}k{}-A", h, k), &base, sp, at, st);
+                let mut c = base.clone();
+                let mut sp2 = sp;
+                let nsteps = rng.range(1, 5);
+                let mut did_super = false;
+                for _ in 0..nsteps {
+                    match rng.range(0, 7) {
+                        0 => {
+                            let len = rng.range(1, 8) as usize;
+                            let u = random_unimodular(&mut rng, len, 6);
+                            c = c.transform(&u, "rebase");
+                        }
+                        1 => c = c.shift_origin(&Vector3::new(rng.uniform(-1.0, 1.0), rng.uniform(-1.0, 1.0), rng.uniform(-1.0, 1.0))),
+                        2 => c = c.rotate(&random_rotation(&mut rng)),
+                        3 => c = c.permute(&mut rng),
+                        4 => c = c.add_integers(&mut rng),
+                        5 => {
+                            let f = *rng.pick(&[1e-2, 0.1, 0.5, 3.0, 10.0, 1e3]);
+                            c = c.scale(f);
+                            sp2 *= f;
+                        }
+                        6 => {
+                            if !did_super && c.cell.num_atoms() <= 100 {
+                                let idx = rng.range(2, 4) as i32;
+                                let all = hnfs_of_index(idx);
+                                let m = *rng.pick(&all);
+                                c = c.transform(&m, "supercell");
+                                did_super = true;
+                            }
+                        }
+                        _ => c = c.mirror(),
+                    }
+                }
+                emit(&mut w, format!("h{}k{}-B", h, k), &c, sp2, at, st);
             }
         }
         _ => panic!("unknown mode"),
